@@ -350,6 +350,8 @@ def main():
             target = target.fset if is_setter else target.fget
         if isinstance(target, (staticmethod, classmethod)):
             target = target.__func__
+        if hasattr(target, "cache_info") and hasattr(target, "__wrapped__"):
+            target = target.__wrapped__         # functools.lru_cache: run the function itself
         for r in spec.get("ext_returns", []):
             RETURNS.setdefault(r["callee"].split(".")[-1], []).append(build(r["value"]))
         helpers = {}
